@@ -326,7 +326,7 @@ theorem lead_append_lstrip (code : Str) : lead code ++ lstrip code = code := by
 
 theorem linguaSkipped_eq (code : Str) : linguaSkipped code = 1 + countNL (lead code) := by
   have : isPySpace '\n' = true := by decide +kernel
-  simp [linguaSkipped, lead, List.takeWhile_cons, this, countNL_cons]
+  simp [linguaSkipped, lead, this, countNL_cons]
 
 theorem lstrip_prep (code : Str) : lstrip ('\n' :: code) = lstrip code := by
   have : isPySpace '\n' = true := by decide +kernel
